@@ -95,6 +95,18 @@ def gen(tier, rng):
                                                     src_c=content(pt, "rand", n), src_lay={"k": "image_ref", "guard": 1},
                                                     dst_lay={"k": "crop_mut", "pad": [1, 1, 1, 2], "guard": 1} if n % 2 else {"k": "slice", "guard": 1},
                                                     log=log, chk=("pipeline", "ret_ok", "outside") + ((chk,) if cpu != "none" else ()), g=g, echo=echo))
+    if tier != "quick":
+        for i in range(8000):
+            kw = rz.random_resize_kw(rng, maxdim=70)
+            chk, log, echo = tol_class(kw["pt"], kw["alpha"])
+            g += 1
+            seed = rng.randint(1, 10 ** 9)
+            kind = rng.choice(["rand", "rand", "max", "narrow", "tiny"])
+            for cpu in rz.CPUS:
+                cases.append(rz.resize_case(kw["pt"], kw["sw"], kw["sh"], kw["dw"], kw["dh"], alg=kw["alg"], flt=kw["flt"], m=kw["m"], alpha=kw["alpha"],
+                                            box=kw["box"], Q=kw["Q"], cpu=cpu, src_c=content(kw["pt"], kind, seed), src_lay={"k": "image_ref", "guard": 1},
+                                            dst_lay={"k": "slice", "guard": 1}, log=log,
+                                            chk=("pipeline", "ret_ok", "outside") + ((chk,) if cpu != "none" else ()), g=g, echo=echo))
     # custom filters that force other fixed-point precisions (sum |w| < 4: max weight 1 + 2a)
     for pt in ("U8", "U8x2", "U8x3", "U8x4", "U16", "U16x2", "U16x3", "U16x4"):
         for ai, a in enumerate((0.0, 0.2, 0.45, 0.7)):
